@@ -420,4 +420,5 @@ def main():
 
 
 if __name__ == "__main__":
-    main()
+    from .harness import run_main
+    run_main(main)
